@@ -440,6 +440,41 @@ example : (do
     let v ← toValue ty x
     pure (decodeStruct ty (encode v) == .ok x)) = some true := by decide
 
+/-! ### the tag numbering rule (`#[tlvargs(start)]`, `#[tagval]`, `#[enumval]`)
+
+The schemas of the harness' derive-shape structures are not written down tag by tag: the harness sends
+the *declaration* and `TlvSchema.structOfDecl` numbers the fields with `implicitTags`.  What that rule is: -/
+
+/-- the field after the fields `pre` gets its `#[tagval]` if it has one, otherwise
+`start + (number of implicitly numbered fields before it)`; an explicit tag does not advance the
+counter (so encoder and decoder must agree on *this* numbering for every declaration shape) -/
+theorem derive_tag_rule (pre : List (Option Nat)) (start : Nat) (tv : Option Nat) (post : List (Option Nat)) :
+    implicitTags start (pre ++ tv :: post) =
+      implicitTags start pre ++ tv.getD (start + countNone pre) ::
+        implicitTags (start + countNone pre + (if tv.isNone then 1 else 0)) post :=
+  implicitTags_split pre start tv post
+
+/-- without `tagval`s the tags are `start, start+1, …` -/
+theorem derive_tags_all_implicit (start n : Nat) :
+    implicitTags start (List.replicate n none) = List.range' start n :=
+  implicitTags_all_implicit start n
+
+/-- the assigned tags are pairwise different (the `Nodup` half of `Ty.wf`) whenever the explicit
+`tagval`s are pairwise different and none of them lies in the range the implicit counter runs through -/
+theorem derive_tags_nodup (tvs : List (Option Nat)) (start : Nat) (h1 : (tvs.filterMap id).Nodup)
+    (h2 : ∀ x, some x ∈ tvs → x < start ∨ start + countNone tvs ≤ x) : (implicitTags start tvs).Nodup :=
+  implicitTags_nodup tvs start h1 h2
+
+-- `struct { #[tagval(7)] a, b, #[tagval(9)] c, d }` with `start = 1`: b is field 1, d is field 2
+example : implicitTags 1 [some 7, none, some 9, none] = [7, 1, 9, 2] := by decide
+-- hypotheses of `derive_tags_nodup` satisfiable; a colliding tagval breaks them (and `Nodup`)
+example : ([some 7, none, some 9, none].filterMap id).Nodup ∧
+    (∀ x, some x ∈ [some 7, none, some 9, none] → x < 1 ∨ 1 + countNone [some 7, none, some 9, none] ≤ x) := by
+  refine ⟨by decide, fun x hx => ?_⟩
+  simp only [List.mem_cons, Option.some.injEq, reduceCtorEq, List.mem_nil_iff, or_false, false_or] at hx
+  rcases hx with rfl | rfl <;> decide
+example : ¬ (implicitTags 0 [none, some 0]).Nodup := by decide
+
 end derived
 
 end C16
